@@ -175,6 +175,14 @@ Effective ==
 StoreSound == \A k \in DOMAIN vstore : vstore[k].st = "complete" =>
                  \A r \in (IF FreeRequests = 0 THEN ScenarioRequests ELSE {vlog[i].req : i \in Reqs}) : KeyGet(r) = k => vstore[k].val = Sol(r)
 
+\* THE LEMMA behind Transparent, over the WHOLE request space (2^11 x 4 requests), independent of any history:
+\* the key determines the result - two requests whose lookup / store keys coincide have the same solution.
+\* (The relation key -> solution is a function iff it has as many pairs as keys.)
+KeySolPairs == {<<KeyGet(r), Sol(r)>> : r \in AllRequests} \cup {<<KeyPut(r), Sol(r)>> : r \in AllRequests}
+KeyDeterminesResult == Cardinality(KeySolPairs) = Cardinality({kp[1] : kp \in KeySolPairs})
+\* and the lemma behind Effective: an identical request looks up the key it stored under
+LookupFindsOwnStore == \A r \in AllRequests : KeyGet(r) = KeyPut(r)
+
 Emit == (vpc = "idle" /\ vtodo = << >> /\ vfree = 0) => PrintT("@@" \o ToJson([log |-> vlog]))
 \* observation variables are kept out of the fingerprint where they do not influence behaviour
 =============================================================================
